@@ -81,6 +81,7 @@ func checkC08(c *h.Ctx, ec *ExecCase) {
 	mode := modeName(ec.P.IsLax())
 	var vq, sq *h.Out
 	var ve, se *h.Out
+	var sm *h.Out
 	det := deterministicCase(ec, doc, vo.Vars)
 	for _, entry := range h.Entries {
 		v := h.Call(entry, ec.P, doc, vo)
@@ -94,6 +95,9 @@ func checkC08(c *h.Ctx, ec *ExecCase) {
 		}
 		if entry == "exists" {
 			ve, se = v, s
+		}
+		if entry == "match" {
+			sm = s
 		}
 		feat := func(kv ...string) map[string]string {
 			return h.F(append([]string{"entry", entry, "mode", mode}, kv...)...)
@@ -196,6 +200,15 @@ func checkC08(c *h.Ctx, ec *ExecCase) {
 	if !det {
 		return
 	}
+	// 3a. Match: NULL unless the answer was already established - the single
+	// boolean the silent Query returns is the established answer
+	if sm != nil && sq != nil && sq.Class == h.OK && len(sq.Items) == 1 && isBool(sq.Items[0]) && sm.Class != h.Panic {
+		if sm.Class != h.OK || sm.Bool != sq.Items[0].(bool) {
+			c.Violate("soft.match-established", h.F("mode", mode), fmt.Sprintf("silent Query returned %s but silent Match returned %s", sq.Summary(), sm.Summary()), cs)
+		} else {
+			c.Held("soft.match-established")
+		}
+	}
 	if ve != nil && ve.Class == h.Soft && se.Class == h.OK {
 		if !se.Bool || (sq.Class == h.OK && len(sq.Items) == 0) {
 			f := h.F("mode", mode, "cause", "unexplained")
@@ -265,6 +278,27 @@ func runC08(c *h.Ctx) {
 	nh := c.PerShard(c.N(100000, 1000000))
 	for i := 0; i < nh; i++ {
 		checkC08(c, eg.harvestCase(i*c.NShards+c.Shard))
+	}
+	// directed: the two bounds of a range, one raising a non-suppressible and
+	// the other a suppressible error; a boolean found before a suppressible
+	// failure; a subscript expression that fails after one item
+	dirDoc := `{"list":[10,20,30,40],"idx":[1,"x"],"ks":[{"k":1},{"j":2}],"bl":[true,"zz"],"ab":[{"b":false},{"c":1}],"s":"x","d":"2024-06-14","n":2}`
+	k := 0
+	for _, pt := range []string{"$.list[$missing to $.s.double()]", "$.list[$.s.double() to $missing]", "$.list[$.d.timestamp_tz() to $.s.integer()]", "$.list[$.n.decimal(0) to $.nokey]", "strict $.list[$missing to $.nokey]",
+		"$.list[0 to $missing]", "$.list[$missing]", "$ ? (@.list[$missing to @.s.double()] > 0)", "$.bl[*].boolean()", "strict $.ab[*].b", "$.bl[*].boolean() ? (@ == true)",
+		"strict $.list[$.idx[0, 5]]", "$.list[$.idx[*].double()]", "strict $.list[$.ks[*].k]", "strict $.list[0 to $.ks[*].k]", "$ ? (@.list[@.idx[*].double()] > 15)", "strict $.list ? (@.size() > 2)[$.ks[*].k]"} {
+		for v := 0; v < 4; v++ {
+			k++
+			if !c.Mine(k) {
+				continue
+			}
+			ec, err := CaseFrom(h.Case{Path: pt, Doc: dirDoc, UseNum: v&1 != 0, TZ: v&2 != 0, Vars: stdVars1})
+			if err != nil {
+				c.Count("gen.unparsable", 1)
+				continue
+			}
+			checkC08(c, ec)
+		}
 	}
 	c.Count("harvested.paths", int64(len(harvestedPaths())))
 	c.Count("gen.rejected-by-parser", int64(eg.Bad))
